@@ -171,6 +171,11 @@ class ClientAuthenticator:
                 self.sendAuthMessage(
                     b'ERROR ' + str(e).encode('unicode-escape'))
 
+        else:
+            # this mechanism has nothing to say to a challenge: give it up
+            # and wait for the server's REJECTED
+            self.sendAuthMessage(b'CANCEL')
+
     def _auth_ERROR(self, line):
         if self.waitingForAgree:
             # the server accepted us but does not pass file descriptors
